@@ -3,6 +3,7 @@ from sweetpea._internal.block import Block
 from sweetpea._internal.cross_block import CrossBlock
 from sweetpea._internal.primitive import *
 from sweetpea._internal.constraint import *
+from sweetpea._internal.constraint import _KInARow
 from sweetpea._internal.sampling_strategy.scattered_map_core import (
     _Factor, _DerivedLevel, _WithinTrial, _Transition,
     encode_experiment, define_cross, execute, print_factors,
@@ -34,8 +35,15 @@ class SMGen(Gen):
 
         for c in block.constraints:
             if (isinstance(c, AtMostKInARow) or isinstance(c, AtLeastKInARow) or isinstance(c, ExactlyK)
-                or isinstance(c, Exclude) or isinstance(c, Pin)):
+                or isinstance(c, Exclude) or isinstance(c, Pin)
+                or isinstance(c, _KInARow) or isinstance(c, Sequential) or isinstance(c, LatinSquare)
+                or isinstance(c, Sustain)):
                 _cexit(f"{type(c).__name__} constraints are not supported by SMGen.")
+
+        # Only one round of the (weighted) crossing is generated, so a block that
+        # repeats its crossing (Repeat, Merge in repeat mode) cannot be handled
+        if (block.trials_per_sample() - block.preamble_size()) > block.crossing_size() * block.crossing_weight():
+            _cexit(f"Repeated crossings are not supported by SMGen.")
 
         # For now, implement a minimum-trials contraint by weighting the levels of
         # one non-derived factor
